@@ -183,6 +183,11 @@ def gen_op(rng, tree, state):
         lo, hi = rng.choice([None, 0, 1]), rng.choice([None, 1, 2, -1])
         return {'op': 'setSlice', 'path': path, 'i': i, 'lo': lo, 'hi': hi, 'step': rng.choice([None, None, None, 1, 2]),
                 'a': collection_arg(rng, mt, n=rng.choice([None, ln]))}
+    if cap is not None and ln >= cap - 1 and rng.random() < 0.35:
+        # at (or one below) the limit: insertions in the middle, slices that grow and stop before the end
+        lo = rng.choice([0, 1, -1, None])
+        hi = lo if rng.random() < 0.6 else rng.choice([0, 1, lo])
+        return {'op': 'setSlice', 'path': path, 'i': i, 'lo': lo, 'hi': hi, 'step': None, 'a': collection_arg(rng, mt, n=rng.choice([1, 2, 3]))}
     if cap is not None and rng.random() < 0.2:
         # grow to the edge of what the sizer can count
         n = max(0, cap - ln + rng.choice([-1, -1, 0, 1]))
@@ -360,6 +365,7 @@ def run_c10(tier):
         reqs = corpus.deft_requests()
         nd = len(reqs)
         rows = []
+        followups = []
         n_hist, n_ops = chk.scale(3, 6), chk.scale(12, 40)
         for c in corpus.types:
             if '"r32"' in json.dumps(c.tree) or '"r64"' in json.dumps(c.tree):
@@ -420,7 +426,15 @@ def run_c10(tier):
                 chk.corr_compared += 1
                 if (o['exc'], o['state']) != (m['exc'], m['state']):
                     chk.correspondence_mismatch('Api.step = public API operation', casej, {'exc': o['exc'], 'state': o['state']}, {'exc': m['exc'], 'state': m['state']})
+                    if 'unreadable' not in o['state']:
+                        followups.append((c, casej, o['state']))
                     break
+        # a state the implementation reached and the reference model did not: is it a valid message state at all?
+        if followups:
+            fans = client.batch(corpus.deft_requests() + [{'op': 'has_type', 't': c.tid, 'v': st} for c, _, st in followups])[len(corpus.types):]
+            for (c, casej, st), a in zip(followups, fans):
+                if not a.get('typed'):
+                    chk.property_violation(casej, {'what': 'the operation led to a state that is not well typed (range / limit / arm) and that the reference model does not reach', 'state': st})
     finally:
         corpus.close()
     return chk.finish()
